@@ -4,6 +4,7 @@
 
    E <prefix expression>
         tokens: + - * / neg == != < <= > >= div mod quo rem
+                bnd!= bnd< bnd<= bnd> bnd>=   (a & <b: validation of a against a bound)
                 i<hex>            int literal (exponent 0)
                 f<hex>^<int>      float literal coefficient * 10^exp
         -> <res> # same            implementation layer = specification layer
@@ -111,6 +112,11 @@ let rec parse_expr toks =
      | "mod" -> bin (fun a b -> ECall (FMod, a, b))
      | "quo" -> bin (fun a b -> ECall (FQuo, a, b))
      | "rem" -> bin (fun a b -> ECall (FRem, a, b))
+     | "bnd!=" -> bin (fun a b -> EBound (CNe, a, b))
+     | "bnd<" -> bin (fun a b -> EBound (CLt, a, b))
+     | "bnd<=" -> bin (fun a b -> EBound (CLe, a, b))
+     | "bnd>" -> bin (fun a b -> EBound (CGt, a, b))
+     | "bnd>=" -> bin (fun a b -> EBound (CGe, a, b))
      | _ -> (lit_of_tok t, r))
 
 let show_num (x : num) =
